@@ -36,6 +36,7 @@ class Tracker:
         self.member = member
         self.raisers = raisers
         self.check_increment = False
+        self._noreturn = {}
         self.check_singular = False     # needs flag correlation ('treated' set together with the iterator): off, see DESIGN.md 12.4 (C35-d)
         self.kids = children_of(funcs)
         self.summ = {}          # key(f) -> {var: (requires, ensures)}
@@ -169,6 +170,16 @@ class Tracker:
                 if v is not None:
                     need_checked(st, v, sid, "dereferenced")
                 return (st,)
+            # a callee that never returns normally (every path of its body ends in a throw or a [[noreturn]] call): the path ends here
+            if self.check_singular and k in ("CXXMemberCallExpr", "CallExpr"):
+                ck_ = (n.get("callee") or "", tuple(n.get("calleeParamTypes") or []))
+                nr_ = self._noreturn.get(ck_)
+                if nr_ is None:
+                    g_ = self.by_key.get(ck_)
+                    nr_ = bool(g_ is not None and g_.entry is not None and g_.exit not in g_.reachable_blocks())
+                    self._noreturn[ck_] = nr_
+                if nr_:
+                    return ()
             # call of a closure that dereferences an iterator it captured by reference (the immediately-invoked '[&p] { ... p->value ... }()'
             # idiom): the dereference happens here; a closure that tests or hands over the iterator before its first dereference is left alone
             if k == "CXXOperatorCallExpr" and n.get("op") == "()":
@@ -371,10 +382,50 @@ class Tracker:
                 return ("ret:%d" % s_, False)
             return None
 
+        # flags set together with an iterator: a local bool b such that every 'b = true' shares its CFG block with an assignment of the local
+        # iterator v, and conversely: on an edge where b is known true, v has been assigned (the states where v is still singular are infeasible)
+        paired = {}
+        if self.check_singular:
+            pos_ = f.stmt_positions()
+            asg_v, asg_b = {}, {}
+            for s_, n_ in f.stmts.items():
+                if n_["k"] == "CXXOperatorCallExpr" and n_.get("op") == "=" and n_.get("args"):
+                    v_ = self.var_of(f, n_["args"][0])
+                    if v_ is not None and v_ != "M" and s_ in pos_:
+                        asg_v.setdefault(v_, set()).add(pos_[s_][0])
+                if n_["k"] == "BinaryOperator" and n_.get("op") == "=":
+                    l_, r_ = f.stmts.get(f.strip(f.kids(s_)[0])), f.stmts.get(f.strip(f.kids(s_)[1]))
+                    if l_ is not None and l_["k"] == "DeclRefExpr" and l_.get("local") and (l_.get("declType") or "") in ("bool", "_Bool") and \
+                            r_ is not None and r_["k"] == "CXXBoolLiteralExpr" and r_.get("value") and s_ in pos_:
+                        asg_b.setdefault(l_["declId"], set()).add(pos_[s_][0])
+            for b_, bb in asg_b.items():
+                for v_, vb in asg_v.items():
+                    if bb == vb:
+                        paired[b_] = v_
+
+        def flag_of(cond):
+            """(flag declId, value of the flag when the condition is true)"""
+            c_ = f.stmts.get(f.strip(cond))
+            if c_ is None:
+                return None
+            if c_["k"] == "DeclRefExpr" and c_.get("declId") in paired:
+                return c_["declId"], True
+            if c_["k"] == "UnaryOperator" and c_.get("op") == "!":
+                k_ = f.stmts.get(f.strip(f.kids(f.strip(cond))[0]))
+                if k_ is not None and k_["k"] == "DeclRefExpr" and k_.get("declId") in paired:
+                    return k_["declId"], False
+            return None
+
         def ed(st, b, succ, pol):
             checked, pristine, assume = st
             if pol is None or b.cond is None:
                 return (st,)
+            if paired:
+                fl = flag_of(b.cond)
+                if fl is not None:
+                    flag_true = (fl[1] == pol)
+                    if flag_true and ("sing", paired[fl[0]]) in checked:
+                        return ()       # the flag is true: the iterator was assigned on this path
             facts = {"ret:%d" % s_: v_ for s_, v_ in assume}
             v0 = eval3(f, b.cond, facts, atom_all)
             if v0 is not None and v0 != pol:
